@@ -29,7 +29,10 @@ pub struct Scn {
     pub rev_rs: ReadScript,
 }
 
-pub struct A1;
+/// Two instances: the general mix (`a1`) and password mode only (`a1p`, scrypt-bound, used by C02).
+pub struct A1 {
+    pub pass_only: bool,
+}
 
 fn first_diff(a: &[u8], b: &[u8]) -> usize {
     a.iter().zip(b.iter()).position(|(x, y)| x != y).unwrap_or(a.len().min(b.len()))
@@ -68,12 +71,26 @@ impl A1 {
 impl Family for A1 {
     type Scenario = Scn;
     fn name(&self) -> &'static str {
-        "a1"
+        if self.pass_only {
+            "a1p"
+        } else {
+            "a1"
+        }
     }
     fn properties(&self) -> &'static [&'static str] {
-        &["C01", "C02", "C06", "C08", "C07"]
+        if self.pass_only {
+            &["C02"]
+        } else {
+            &["C01", "C02", "C06", "C08", "C07"]
+        }
     }
     fn budget(&self, tier: Tier, p: &str) -> u64 {
+        if self.pass_only {
+            return match tier {
+                Tier::Quick => 220,
+                Tier::Thorough => 6000,
+            };
+        }
         let q = match p {
             "C07" => 3000,
             _ => 12000,
@@ -87,12 +104,19 @@ impl Family for A1 {
         let m = rng.below(1000);
         // pass mode is scrypt-bound (3+ evaluations per run): sampled thinly
         let pass_share = if tier == Tier::Quick { 8 } else { 12 };
-        let mode = if m < 600 {
+        let mode = if self.pass_only {
+            gen_pass_mode(rng)
+        } else if m < 600 {
             let pa = rng.chance(1, 2);
             gen_hook_mode(rng, pa)
         } else if m < 1000 - pass_share {
             let fx = rng.chance(2, 3);
-            gen_key_mode(rng, fx)
+            let mut m = gen_key_mode(rng, fx);
+            // a caller that hands over only half of the ephemeral pair
+            if let Mode::Key { omit_e_pub, e_priv: Some(_), .. } = &mut m {
+                *omit_e_pub = rng.chance(1, 6);
+            }
+            m
         } else {
             gen_pass_mode(rng)
         };
@@ -131,7 +155,14 @@ impl Family for A1 {
                 let n = if tier == Tier::Quick { 1 } else { 2 };
                 for _ in 0..n {
                     let p = &password.0;
-                    let cand: Vec<u8> = match rng.below(6) {
+                    let cand: Vec<u8> = match rng.below(8) {
+                        // a long password cut to a "convenient" buffer size: must still be a different password
+                        6 if p.len() > 128 => p[..128].to_vec(),
+                        7 if p.len() > 64 => {
+                            let mut q = p[..p.len() - 8].to_vec();
+                            q.extend_from_slice(b"DIFFERENT-TAIL");
+                            q
+                        }
                         0 if !p.is_empty() => p[..p.len() - 1].to_vec(),
                         1 => {
                             let mut q = p.clone();
@@ -325,9 +356,9 @@ impl Family for A1 {
         }
         // ---- reverse direction (C06): reference-written file with an arbitrary legal chunking
         let rev_mode = match &s.mode {
-            Mode::Key { s_priv, r_priv, e_priv: None, .. } => {
+            Mode::Key { s_priv, r_priv, e_priv: None, .. } | Mode::Key { s_priv, r_priv, omit_e_pub: true, .. } => {
                 let mut r = Rng::new(s.entropy_tag ^ 0x5151);
-                Mode::Key { s_priv: s_priv.clone(), r_priv: r_priv.clone(), e_priv: Some(Hx(r.bytes(32))), payload: Some(Hx(r.bytes(32))) }
+                Mode::Key { s_priv: s_priv.clone(), r_priv: r_priv.clone(), e_priv: Some(Hx(r.bytes(32))), payload: Some(Hx(r.bytes(32))), omit_e_pub: false }
             }
             m => m.clone(),
         };
@@ -351,7 +382,7 @@ impl Family for A1 {
                 o => out.violations.push(viol("C06", "reverse_rejected", format!("a conforming file ({} chunks, sizes {:?}..) was rejected: {:?}", s.rev_chunking.len().max(1), &s.rev_chunking[..s.rev_chunking.len().min(6)], o))),
             }
             // pinned release writes -> working tree reads (key mode, regular chunking only)
-            if let (Mode::Key { s_priv, r_priv, e_priv: Some(e), payload: Some(p) }, true) = (&rev_mode, public_api) {
+            if let (Mode::Key { s_priv, r_priv, e_priv: Some(e), payload: Some(p), .. }, true) = (&rev_mode, public_api) {
                 if let Some(pf) = crate::selftest::pinned_key_encrypt(&s_priv.a32(), &r_priv.a32(), &e.a32(), &p.a32(), &pt) {
                     let d = run_decrypt(&rev_mode, &pf, &s.rev_rs, &s.dec_ws, &trace, None, None);
                     out.count("probe.c06_pinned_writer", 1);
